@@ -727,6 +727,26 @@ class SArray:
     def sum(self, axis=None):
         return h_sum(self)
 
+    def _extreme(self, want_max, axis=None, initial=None, **kw):
+        if axis is not None or kw:
+            raise OutsideModel("max/min with axis or further options")
+        xs = list(self.a.ravel())
+        if initial is not None:
+            xs.append(cast_elem(initial, self.dtype))
+        if not xs:
+            raise ValueError("zero-size array to reduction operation %s which has no identity" % ("maximum" if want_max else "minimum"))
+        best = xs[0]
+        for x in xs[1:]:
+            better = zbool(x > best) if want_max else zbool(x < best)
+            best = elem_ite(better, x, best)
+        return best
+
+    def max(self, axis=None, **kw):
+        return self._extreme(True, axis, **kw)
+
+    def min(self, axis=None, **kw):
+        return self._extreme(False, axis, **kw)
+
     def __repr__(self):
         return f"SArray{self.shape}<{self.dtype}>"
 
@@ -874,6 +894,14 @@ def h_any(a, axis=None, **kw):
         raise OutsideModel("any(axis)")
     xs = [zbool(x) if isinstance(x, (SBool, bool, real_np.bool_)) else zbool(x != 0) for x in a.a.ravel()]
     return SBool(z3.Or(xs)) if xs else False
+
+
+def h_amax(a, axis=None, **kw):
+    return a._extreme(True, axis, **{k: v for k, v in kw.items() if k == "initial"})
+
+
+def h_amin(a, axis=None, **kw):
+    return a._extreme(False, axis, **{k: v for k, v in kw.items() if k == "initial"})
 
 
 def h_all(a, axis=None, **kw):
@@ -1322,7 +1350,7 @@ HANDLERS = dict(unique=h_unique, argmax=h_argmax, pad=h_pad, array_equal=h_array
                 flip=h_flip, squeeze=h_squeeze, expand_dims=h_expand_dims,
                 concatenate=h_concatenate, stack=h_stack, append=h_append, clip=h_clip,
                 any=h_any, all=h_all, sum=h_sum, dot=h_dot, can_cast=h_can_cast, shape=h_shape,
-                ndim=h_ndim, size=h_size, copy=h_copy, insert=h_insert, savetxt=h_savetxt, swapaxes=h_swapaxes, rollaxis=h_rollaxis, atleast_3d=h_atleast_3d,
+                ndim=h_ndim, size=h_size, copy=h_copy, insert=h_insert, savetxt=h_savetxt, swapaxes=h_swapaxes, rollaxis=h_rollaxis, atleast_3d=h_atleast_3d, amax=h_amax, amin=h_amin, max=h_amax, min=h_amin,
                 iscomplexobj=h_iscomplexobj, broadcast_to=h_broadcast_to)
 
 
